@@ -421,7 +421,12 @@ class Symx:
             st, bi, visited = work.pop()
             while True:
                 if bi in visited:
+                    # back edge: the path is reported up to here (loop bodies are walked once)
                     st.cut = True
+                    self.npaths += 1
+                    if self.npaths > self.max_paths:
+                        raise Budget('too many paths in %s' % fn.nq)
+                    yield st, ('sym', '<loop-cut>')
                     break
                 visited = visited + (bi,)
                 b = fn.blocks[bi]
